@@ -88,7 +88,9 @@ func MergeNodes(left, right Node, document *Document) (Node, error) {
 			}
 		}
 
-		r.AddNode(child)
+		// The child has to be copied, otherwise the result shares the node with
+		// the right input.
+		r.AddNode(DeepCopy(child, document))
 	next:
 	}
 
